@@ -74,8 +74,8 @@ pub const STRINGS: [&str; 14] = ["", "a", "abc", "a*c", "\\", "\"", "\0", "e\u{3
 pub const DEC_STRS: [&str; 12] = [
     "0.0", "1.0", "1.0000", "-0.5", "1.23", "922337203685477.5807", "-922337203685477.5808", "922337203685477.5808", "1.23456", "1", ".5", "-1.5",
 ];
-pub const IP_STRS: [&str; 14] = [
-    "127.0.0.1", "10.0.0.0/8", "10.1.2.3", "0.0.0.0/0", "1.1.1.1/32", "1.1.1.1", "::1", "ff00::/8", "::/0", "0:0:0:0:0:0:0:1", "::ffff:1.2.3.4", "1.2.3.4/033", "224.0.0.1", "256.1.1.1",
+pub const IP_STRS: [&str; 16] = [
+    "::ffff:a00:1", "::a00:1/120", "127.0.0.1", "10.0.0.0/8", "10.1.2.3", "0.0.0.0/0", "1.1.1.1/32", "1.1.1.1", "::1", "ff00::/8", "::/0", "0:0:0:0:0:0:0:1", "::ffff:1.2.3.4", "1.2.3.4/033", "224.0.0.1", "256.1.1.1",
 ];
 pub const DT_STRS: [&str; 12] = [
     "1970-01-01", "2024-02-29", "2023-02-29", "1969-12-31T23:59:59Z", "2024-01-01T01:00:00+0100", "2024-01-01", "0000-01-01", "9999-12-31T23:59:59.999Z", "2024-01-01T24:00:00Z", "2024-01-01T00:00:00", "2024-13-01", "2024-01-01T00:00:00.001-2359",
